@@ -3292,7 +3292,10 @@ impl<'a> Visitor<'a, '_, Error> for JSONValidator<'a> {
               }
             }
             #[cfg(feature = "additional-controls")]
-            None | Some(ControlOperator::FEATURE) => {
+            None
+            | Some(ControlOperator::FEATURE)
+            | Some(ControlOperator::AND)
+            | Some(ControlOperator::WITHIN) => {
               if i == *v as i64 {
                 None
               } else {
@@ -3360,7 +3363,10 @@ impl<'a> Visitor<'a, '_, Error> for JSONValidator<'a> {
               }
             }
             #[cfg(feature = "additional-controls")]
-            None | Some(ControlOperator::FEATURE) => {
+            None
+            | Some(ControlOperator::FEATURE)
+            | Some(ControlOperator::AND)
+            | Some(ControlOperator::WITHIN) => {
               if i == *v as u64 {
                 None
               } else {
@@ -3438,7 +3444,10 @@ impl<'a> Visitor<'a, '_, Error> for JSONValidator<'a> {
               }
             }
             #[cfg(feature = "additional-controls")]
-            None | Some(ControlOperator::FEATURE) => {
+            None
+            | Some(ControlOperator::FEATURE)
+            | Some(ControlOperator::AND)
+            | Some(ControlOperator::WITHIN) => {
               if (f - *v).abs() < f64::EPSILON {
                 None
               } else {
